@@ -785,7 +785,7 @@ func TestC18(t *testing.T) {
 		{"S10-embedded-not-first", func() shape { return new(S10) }, g, 8388000, ""},
 		{"S11-embedded-last-after-absent-field", func() shape { return new(S11) }, g, 8388000, ""},
 	}
-	n := rec.N(60000, 3000000)
+	n := rec.N(60000, 30000000)
 	rec.Suite("values", n, func(c *ev.Case) {
 		e := family[c.I%len(family)]
 		src := e.mk()
@@ -918,7 +918,7 @@ func TestC18Apps(t *testing.T) {
 		t.Fatalf("harness self-check: no AVP name resolves differently for two applications of the default dictionary")
 	}
 	rec.Note(fmt.Sprintf("%d AVP names resolve differently for at least two applications", len(entries)))
-	rec.Suite("same-type-several-applications", len(entries)*2*rec.N(2, 20), func(c *ev.Case) {
+	rec.Suite("same-type-several-applications", len(entries)*2*rec.N(2, 100), func(c *ev.Case) {
 		e := entries[c.I%len(entries)]
 		order := append([]uint32(nil), e.apps...)
 		if (c.I/len(entries))%2 == 1 {
